@@ -1200,6 +1200,12 @@ class Interp:
             return self.bytes_binop(op, a, b, node, frame, inplace)
         if isinstance(a, Obj) or isinstance(b, Obj):
             raise Unsupported('operator on objects at %s' % self.here(node, frame))
+        if isinstance(a, str) and isinstance(op, ast.Mod):
+            from .stdlib import has_sym
+            if has_sym(b) or (isinstance(b, tuple) and any(has_sym(x) for x in b)):
+                return '<message formatted from symbolic values>'
+        if isinstance(a, V.ABytes) or isinstance(b, V.ABytes):
+            raise Unsupported('operator on symbolic-length bytes at %s' % self.here(node, frame))
         if sx.is_bv(a) or sx.is_bv(b):
             return self.bv_binop(op, a, b, node, frame)
         sym = is_sym(a) or is_sym(b)
@@ -1315,6 +1321,12 @@ class Interp:
         if isinstance(op, ast.Mult):
             if V.is_bytes(b):
                 a, b = b, a
+            if is_sym(b) and self.ctx.entails(z3.And(b >= 0, b <= 16)):
+                # small repetition count: case split
+                for k in range(0, 17):
+                    if k == 16 or self.branch(b == k):
+                        b = k
+                        break
             if is_sym(b):
                 ia = V.items_of(a)
                 if len(ia) == 1 and not is_sym(ia[0]):
